@@ -386,3 +386,109 @@ def canon_op(t):
             a, b = b, a
         return (k, a, b)
     return tuple(canon_op(x) if isinstance(x, tuple) else x for x in t)
+
+
+# ------------------------------------------------------------------------------------------------ loops
+
+class Loop:
+    """the single natural loop of a (tracked) body: header, blocks, carried variables with init/step expressions"""
+
+    def __init__(self, tb):
+        self.tb = tb
+        live = tb.live_blocks()
+        backs = [(p, h) for h in live for p in tb.preds(h) if tb.dominates(h, p)]
+        heads = sorted({h for _, h in backs})
+        if len(heads) != 1:
+            raise Unrecognised("%d loops (exactly one expected)" % len(heads))
+        self.header = heads[0]
+        self.back = [p for p, h in backs if h == self.header]
+        if len(self.back) != 1:
+            raise Unrecognised("%d back edges" % len(self.back))
+        self.back = self.back[0]
+        h = self.header
+        self.blocks = {b for b in tb.reachable_from(h) if h in tb.reachable_from(b)}
+        # carried variables: locals with a definition inside the loop that reaches the header
+        self.carried = {}
+        tb._reaching()
+        rd = tb._rd_in.get(h, {})
+        for l, defs in rd.items():
+            inside = [d for d in defs if d[0] != "entry" and d[0] != "partial" and d[0] in self.blocks]
+            outside = [d for d in defs if d not in inside]
+            if inside and outside:
+                self.carried[l] = (outside, inside)
+
+    def head_phi(self, l):
+        return self.tb.local_expr(l, self.header, 0)
+
+    def init_expr(self, l):
+        outside, _ = self.carried[l]
+        if len(outside) != 1:
+            raise Unrecognised("loop variable with %d initial definitions" % len(outside))
+        return self.tb.def_expr(l, outside[0])
+
+    def step_expr(self, l):
+        return self.tb.local_expr(l, self.back, "term")
+
+    def iterator(self):
+        """(iter local, item expr, iterator init expr) for `for x in it` loops, else None"""
+        for bb in sorted(self.blocks):
+            t = self.tb.term(bb)
+            if t["k"] == "call" and callee_name(t) == "next":
+                a = t["args"][0]
+                e = ds(self.tb.operand_expr(a, bb, "term"))
+                if isinstance(e, tuple) and e[0] == "phi" and e[1] in self.carried:
+                    item = ("field", ("downcast", self.tb.call_expr(bb), "Some"), "0")
+                    return e[1], item, self.init_expr(e[1])
+        return None
+
+    def exit_condition(self):
+        """(bb, discr expr, value that stays in the loop) of the switch that leaves the loop"""
+        for bb in sorted(self.blocks):
+            t = self.tb.term(bb)
+            if t["k"] == "switch":
+                succs = self.tb.succ(bb)
+                out = [s for s in succs if s not in self.blocks]
+                if out:
+                    return bb, self.tb.switch_discr_expr(bb), [s for s in succs if s in self.blocks]
+        return None
+
+
+def item_symbols(item_expr, structure):
+    """map sub-fields of the loop/closure item to element symbols: structure is a nested tuple tree of symbol names,
+    e.g. ('e0','e1') for zip(a,b) items, 'e0' for a plain iterator"""
+    out = {}
+
+    def go(e, st):
+        if isinstance(st, str):
+            out[ds(e)] = ("sym", st)
+            return
+        for i, sub in enumerate(st):
+            go(("field", e, str(i)), sub)
+    go(item_expr, structure)
+    return out
+
+
+def zip_structure(prog, body, it, counter=None):
+    """iterator expression → (structure tree of element symbols, [producer root exprs])"""
+    if counter is None:
+        counter = [0]
+    e = ds(it)
+    for _ in range(12):
+        if isinstance(e, tuple) and e[0] == "call" and e[1] in ("into_iter", "iter", "by_ref", "cloned", "copied", "view", "into_producer") and e[3]:
+            inner = ds(e[3][0])
+            if isinstance(inner, tuple) and inner[0] == "call" and inner[1] in ("zip", "into_iter", "iter", "by_ref", "cloned", "copied"):
+                e = inner
+                continue
+            break
+        break
+    if isinstance(e, tuple) and e[0] == "call" and e[1] == "zip" and len(e[3]) == 2:
+        s0, p0 = zip_structure(prog, body, e[3][0], counter)
+        s1, p1 = zip_structure(prog, body, e[3][1], counter)
+        return (s0, s1), p0 + p1
+    name = "e%d" % counter[0]
+    counter[0] += 1
+    from .rules_layout import producer_chain
+    rb, re_, chain, bad = producer_chain(prog, body, it)
+    if bad is not None:
+        raise Unrecognised("producer goes through `%s`" % bad)
+    return name, [(rb, ds(re_))]
